@@ -456,10 +456,13 @@ def g7_windows(ctx):
     if not found:
         ctx.report(G7, g, g['body'], 'bit-reverse condition', 'the generator no longer pre-reverses pinned registers in bit-reverse mode')
     ra = ctx.fn('Teakra::Interpreter::RnAddress(unsigned int,unsigned int)')
-    c = [render(n['cond'], ra) for n in walk(ra['body']) if n.get('k') == 'if']
     REGS = '(. f:Teakra::Interpreter::regs %s::' % RS
-    if c != ['(&& (! ([] %sm) $0)) ([] %sbr) $0))' % (REGS, REGS)]:
-        ctx.report(G7, ra, ra['body'], 'interpreter reverse condition', 'RnAddress reverses under %s' % c)
+    from .. import summ, boolform
+    rets = summ.summary(ctx, ra).returns()
+    REV = boolform.all_of(boolform.A('([] %sbr) $0)' % REGS), boolform.neg(boolform.A('([] %sm) $0)' % REGS)))
+    rev = rets.get('(call BitReverse $1)')
+    if rev is None or boolform.equivalent(rev, REV) is not True:
+        ctx.report(G7, ra, ra['body'], 'interpreter reverse condition', 'RnAddress reverses under %s' % (boolform.show(rev)[:200] if rev else 'no condition'))
     # verifier loops
     mains = [f for f in ctx.F['functions'].values() if f['name'] == 'main' and f['file'].startswith('src/test_verifier/')]
     ctx.require(len(mains) == 1, 'test_verifier main not found')
